@@ -487,7 +487,34 @@ def replay_critpath_graphs(run, pid, checks, graphs, seed, limit=None):
 # ------------------------------------------------------------------------------------------
 # C14: rotations of the loop body
 # ------------------------------------------------------------------------------------------
-def rotation_cases(run, pid, seed, n_kernels, maxlen, all_offsets, archs_x86, archs_arm, max_shipped_rot=None):
+def _long_rotation_kernel(isa, shapes, rnd):
+    """50..57 lines (the multi-process LCD search): short dependency cycles on disjoint registers -
+    among them one-instruction cycles - scattered over read-only filler lines, so that every rotation
+    puts other cycles next to the cut of the body and at the end of the static root partition."""
+    by = {s["name"]: s for s in shapes}
+    ln = rnd.randint(50, 57)
+    regs = list(dc.GPR_POOL[isa])
+    rnd.shuffle(regs)
+    blocks = []
+    while len(regs) >= 1 and len(blocks) < 6:
+        k = rnd.choice([1, 1, 2, 2, 3]) if len(regs) >= 2 else 1
+        pool = [regs.pop() for _ in range(min(2, len(regs)) if k > 1 else 1)]
+        blocks.append([dc.gen_instr(isa, by[rnd.choice(["opb", "opb", "opc", "opd"]) if k > 1 else "opb"], rnd, pool=pool,
+                                    vpool=dc.VEC_POOL[isa][:2]) for _ in range(k)])
+    nfill = ln - sum(len(b) for b in blocks)
+    fill = [dc.gen_instr(isa, by["oph"], rnd, pool=dc.GPR_POOL[isa], vpool=dc.VEC_POOL[isa][:2]) for _ in range(nfill)]
+    # blocks stay contiguous (a cycle inside a few neighbouring lines), their positions are random
+    slots = sorted(rnd.sample(range(nfill + 1), len(blocks)))
+    instrs, fi = [], 0
+    for pos, b in zip(slots, blocks):
+        instrs += fill[fi:pos]
+        fi = pos
+        instrs += b
+    instrs += fill[fi:]
+    return instrs
+
+
+def rotation_cases(run, pid, seed, n_kernels, maxlen, all_offsets, archs_x86, archs_arm, max_shipped_rot=None, n_long=0):
     """Analyse every kernel at offset 0 and at rotation offsets; each rotated analysis becomes a
     `rot` case carrying the base kernel's observed doubled graph."""
     rnd = random.Random(seed * 31 + 3)
@@ -521,6 +548,13 @@ def rotation_cases(run, pid, seed, n_kernels, maxlen, all_offsets, archs_x86, ar
             offs = list(range(1, ln)) if all_offsets else sorted(rnd.sample(range(1, ln), min(ln - 1, 3)))
             add("syn", isa, d, "%s:rot:syn:%s:%d" % (pid, isa, q), lines,
                 {"isa": isa, "src": "random-synthetic", "shapes": [i["shape"] for i in instrs]}, offs)
+        for q in range(n_long):
+            instrs = _long_rotation_kernel(isa, shapes, rnd)
+            lines = ["\t" + i["text"] for i in instrs]
+            ln = len(lines)
+            offs = sorted(rnd.sample(range(1, ln), 12 if all_offsets else 4))
+            add("syn", isa, d, "%s:rot:long:%s:%d" % (pid, isa, q), lines,
+                {"isa": isa, "src": "long-synthetic", "shapes": [i["shape"] for i in instrs]}, offs)
     env.warm_models(archs_x86 + archs_arm)
     for name, isa, text in shipped_kernels(max_instr=45):
         lines = [l for l in text.split("\n") if l.strip()]
